@@ -10,6 +10,16 @@ for l in open('/verif/properties.jsonl'):
     p = json.loads(l)
     if p['id'] == pid:
         break
+import os, glob
+prev = []
+for d in sorted(glob.glob('/verif/seeded/%s-m*' % pid)):
+    try:
+        prev.append("  - " + json.load(open(d + '/meta.json'))['summary'][:220])
+    except Exception:
+        pass
+AVOID = ""
+if prev and rnd > 1:
+    AVOID = "\n\nOther engineers have already delivered the following changes for this property; yours must differ from all of them in location and nature (do not re-use the same function and trick):\n" + "\n".join(prev) + "\n"
 print(f"""You are a software engineer working on the Go library github.com/ricochet1k/termemu (a headless terminal emulator: VT/xterm escape-sequence parser driving two screen-buffer implementations, grid and span, plus key and mouse encoders). Its source is the git repository /repo. You must NOT modify /repo itself and you must NOT read anything under /verif. Work only in your own scratch git worktree:
 
     git -C /repo worktree add --detach {DIR}/wt HEAD
@@ -25,7 +35,7 @@ PROPERTY {p['id']}: {p['title']}
 It is meant to hold for: {p['quantifier']['text']}
 (Relevant source files: {', '.join(p['anchors']['files'])}.)
 
-YOUR TASK: produce TWO different, independent, realistic code changes ("mutants") to the library, each of which BREAKS this property while the library STILL COMPILES and the EXISTING TEST SUITE STILL PASSES unedited. Think of the kind of regression a plausible refactoring, optimisation, off-by-one, wrong constant, dropped special case, reordered statements, or mis-merged patch would introduce. Each change should need something SPECIFIC to manifest — a particular multi-step sequence of operations, an unusual input or parameter value, a boundary size, a particular interleaving or read segmentation, a fault at a particular point, or two cooperating sites that each look fine alone — NOT something ordinary use would expose at once (a change that breaks typing 'hello' is useless). Keep each change small (a few lines), in non-test library code only (never touch *_test.go, verif_hooks.go, go.mod), and make the two mutants different in nature and location. Do not add new exported API. The change must violate the property as stated above, not merely change unspecified behaviour.
+YOUR TASK: produce TWO different, independent, realistic code changes ("mutants") to the library, each of which BREAKS this property while the library STILL COMPILES and the EXISTING TEST SUITE STILL PASSES unedited. Think of the kind of regression a plausible refactoring, optimisation, off-by-one, wrong constant, dropped special case, reordered statements, or mis-merged patch would introduce. Each change should need something SPECIFIC to manifest — a particular multi-step sequence of operations, an unusual input or parameter value, a boundary size, a particular interleaving or read segmentation, a fault at a particular point, or two cooperating sites that each look fine alone — NOT something ordinary use would expose at once (a change that breaks typing 'hello' is useless). Keep each change small (a few lines), in non-test library code only (never touch *_test.go, verif_hooks.go, go.mod), and make the two mutants different in nature and location. Do not add new exported API. The change must violate the property as stated above, not merely change unspecified behaviour.{AVOID}
 
 For each mutant i in {M1}, {M2} deliver a directory {DIR}/out/m<i>/ containing:
   - patch.diff : `git diff` of the worktree against HEAD for this mutant only (apply-able with `git apply` to a clean checkout of /repo HEAD)
